@@ -392,6 +392,11 @@ func (n *Net) send(ctx context.Context, addr string, req *tikvrpc.Request, timeo
 		if n.Dead() {
 			return nil, errKilled, nil
 		}
+		n.cl.closeMu.RLock()
+		defer n.cl.closeMu.RUnlock()
+		if n.cl.closed {
+			return nil, errClosed, nil
+		}
 		resp, err := n.inner.SendRequest(ctx, addr, req, timeout)
 		return resp, err, nil
 	}
@@ -686,6 +691,9 @@ func NewCluster(b Backend, nStores, nClients int) (*Cluster, error) {
 		if err != nil {
 			return nil, err
 		}
+		// the cached GC safe point counts as fresh for the whole case: a case that is stalled for 100 s (memory
+		// pressure, a loaded machine) must not make every read fail with "start timestamp may fall behind safe point"
+		tikv.StoreProbe{KVStore: store}.UpdateTxnSafePointCache(0, time.Now().Add(24*time.Hour))
 		cl.Clients = append(cl.Clients, &Client{ID: i, Store: store, Net: n, PD: v})
 	}
 	return cl, nil
